@@ -59,7 +59,7 @@ Proof.
   intros [Hnd Hm]. unfold set_add1, set_has. rewrite (Hm v).
   destruct (mem v (sl s)) eqn:Hv.
   - split; [split; assumption | reflexivity].
-  - cbn [sl sm]. split; [|reflexivity]. split.
+  - cbn [sl sm]. split; [|reflexivity]. split; cbn [sl sm].
     + apply NoDup_snoc; [exact Hnd | apply mem_false_In; exact Hv].
     + intros w. rewrite mem_cons, mem_app, (Hm w). cbn [mem existsb]. rewrite orb_false_r.
       apply orb_comm.
